@@ -395,5 +395,22 @@ def run_C12(ctx):
             if ctx.evaluations % 29 == 7:
                 ctx.sample(dict(kind=kind, expected=want or 'processed', observed=got or 'processed', why=desc))
         ctx.extra['verdicts'] = {'%s -> %s' % (k, v or 'processed'): c for (k, v), c in sorted(hist.items(), key=str)}
+        # the built-in limit (C12_state_limit: refusal exactly when the LR(0) collection has 2000 states or more): the family
+        # list : list item | item ; item : T_i U_j has nt*nu + nt + 4 states - 1999 states must be processed, 2000 refused
+        lim = []
+        for (nt, nu, want) in ((35, 56, 'processed'), (4, 498, 'toomany')):
+            g = gram.big_grammar(random.Random(1), nt=nt, nu=nu)
+            p = os.path.join(work, 'limit_%d_%d.y' % (nt, nu))
+            open(p, 'w').write(gram.render_plain(g))
+            lim.append((nt, nu, want, p))
+        for (nt, nu, want, p), d in zip(lim, vlib.run_dump([x[3] for x in lim], timeout=300)):
+            ctx.evaluations += 1
+            msg = (d.get('panic') or d.get('err') or '')
+            got = 'processed' if d.get('ok') else ('toomany' if 'too man' in msg else 'refused: ' + msg[:80])
+            nstates = len(d.get('lr0') or [])
+            if got != want or (want == 'processed' and nstates != nt * nu + nt + 4):
+                ctx.violation('counterexample', 'a grammar whose LR(0) collection has %d states (item : T_i U_j, %d x %d pairs) is %s (%d states delivered); the limit is: fewer than 2000 states are processed, 2000 or more refused'
+                              % (nt * nu + nt + 4, nt, nu, got, nstates), dict(defect='state_limit', grammar_text=open(p).read()[:20000], expected=want, observed=got), interface='I1e')
+        ctx.extra['state_limit'] = 'a 1999-state grammar is processed, a 2000-state grammar is refused with "too many states"'
     finally:
         shutil.rmtree(work, ignore_errors=True)
